@@ -174,6 +174,20 @@ def float_laws(ctx, out):
             out.failures.append({"what": "float(repr(f)) != f", "kind": "float-law", "text": t})
         if not r or any(c in r for c in "\t\r\n;"):
             out.failures.append({"what": "repr(float) contains a separator", "kind": "float-law", "text": t})
+    # law parse_int (used for StringIntegerOrFloatColumn): float() accepts every integer literal
+    from ..textgen import int_texts
+    for t in int_texts(rng) + [str(rng.randrange(-10**30, 10**30)) for _ in range(100)]:
+        if not t.isascii():
+            continue
+        try:
+            int(t)
+        except ValueError:
+            continue
+        n += 1
+        try:
+            float(t)
+        except (ValueError, OverflowError):
+            out.failures.append({"what": "float() rejects an integer literal", "kind": "float-law", "text": t})
     try:
         float("")
         out.failures.append({"what": "float('') accepted", "kind": "float-law"})
